@@ -247,5 +247,89 @@ func ruleIndex(c *Ctx) *RuleResult {
 		}
 		r.fail("unbounded-index:"+k, p.InstrPos(s.ins), fmt.Sprintf("%s compares this index with the length elsewhere, but this use can be reached without passing the in-range side of any of those tests: %s", fnKey(s.f), k))
 	}
+
+	// A bound that is a sum must not be the thing compared with the length: `pos + n >
+	// len(x)` wraps around when n is near the largest integer and the test passes; the
+	// safe form compares one term with the difference (`n > len(x) - pos`). A slice or
+	// index bound of the form a + b, neither a constant, is accepted only if some branch
+	// decision on the way bounds a or b from above on its own.
+	nSum := 0
+	for _, f := range p.ModFuncs() {
+		if f.Blocks == nil || f.Synthetic != "" || !luaReachablePkg(relPkg(funcPkgPath(f))) {
+			continue
+		}
+		var gc *GuardCtx
+		forEachInstr(f, func(ins ssa.Instruction) {
+			var bounds []ssa.Value
+			switch x := ins.(type) {
+			case *ssa.Slice:
+				if _, isStrOrSlice := x.X.Type().Underlying().(*types.Pointer); isStrOrSlice {
+					return // slicing an array through a pointer: fixed size
+				}
+				bounds = []ssa.Value{x.Low, x.High}
+			case *ssa.IndexAddr:
+				if _, ok := x.X.Type().Underlying().(*types.Slice); ok {
+					bounds = []ssa.Value{x.Index}
+				}
+			}
+			for _, b := range bounds {
+				if b == nil {
+					continue
+				}
+				add, ok := stripConv(b).(*ssa.BinOp)
+				if !ok || add.Op != token.ADD {
+					continue
+				}
+				if bt, ok := add.Type().Underlying().(*types.Basic); !ok || bt.Info()&types.IsInteger == 0 {
+					continue
+				}
+				if _, c1 := constInt(add.X); c1 {
+					continue
+				}
+				if _, c2 := constInt(add.Y); c2 {
+					continue
+				}
+				if gc == nil {
+					gc = newGuardCtx(f)
+				}
+				// is the sum itself what gets compared, and is no term bounded on its own?
+				sumCompared, termBounded := false, false
+				for _, ge := range gc.MustEdges(ins.Block()) {
+					rel, ok := ge.Relation()
+					if !ok {
+						continue
+					}
+					a, bb := stripConv(rel.A), stripConv(rel.B)
+					if a == ssa.Value(add) || bb == ssa.Value(add) {
+						sumCompared = true
+					}
+					for _, term := range []ssa.Value{stripConv(add.X), stripConv(add.Y)} {
+						// term < K, term <= K (term on the small side) with K anything but the sum
+						if (a == term && (rel.Op == token.LSS || rel.Op == token.LEQ) && bb != ssa.Value(add)) ||
+							(bb == term && (rel.Op == token.GTR || rel.Op == token.GEQ) && a != ssa.Value(add)) {
+							termBounded = true
+						}
+					}
+				}
+				if !sumCompared {
+					continue // not the pattern (other rules look at unproved bounds)
+				}
+				nSum++
+				key := fnKey(f) + ":" + litName(add)
+				switch {
+				case termBounded:
+					r.ok("sum bound " + key + ": a term is bounded from above on its own")
+				case sumTable[key] != "":
+					r.ok("table: " + key + " — " + sumTable[key])
+				default:
+					r.fail("sum-compared-with-length:"+key, p.InstrPos(ins), fmt.Sprintf("%s uses %s as a bound after comparing the sum itself with a length, and nothing bounds either term from above: when one term is dictated by the program (a size read from the format or from the data) the sum wraps around, the comparison passes and the slice expression panics (string.unpack with a length prefix of 0x7ffffffffffffff8 killed the host); compare one term with the difference instead", fnKey(f), litName(add)))
+				}
+			}
+		})
+	}
+	r.count("sum_bounds_compared_with_length", nSum)
 	return r
 }
+
+// sumTable: accepted sums, one reason each.
+var sumTable = map[string]string{}
